@@ -460,7 +460,7 @@ func (x *Exec) havocTarget(env *SpecEnv, st *State, mt ModTarget) {
 		base := x.evalVal(env, t.X)
 		if _, isIface := base.Typ.Underlying().(*types.Interface); isIface {
 			// ghost field of an interface-typed object
-			name := types.TypeString(base.Typ, func(p *types.Package) string { return p.Name() })
+			name := x.specIfaceName(env, t.X, base.Typ)
 			is, ok := x.DB.Ifaces[name]
 			if !ok {
 				panic(specErr("modifies %s: no interface specification for %s", mt.Text, name))
